@@ -431,6 +431,9 @@ func applyPatch(dest, patch map[string]interface{}, fieldPaths []string) error {
 			if err := unstructured.SetNestedField(dest, value, pathParts...); err != nil {
 				return fmt.Errorf("can't apply patch for field %v: %w", fieldPath, err)
 			}
+		} else {
+			// The revision was taken from a parent that did not have this field.
+			unstructured.RemoveNestedField(dest, pathParts...)
 		}
 	}
 	return nil
